@@ -60,6 +60,7 @@ pub(crate) fn add(left: Value, right: Value, _options: &Options, span: Span) -> 
         },
         Value::Null => match right {
             Value::Null => Value::Null,
+            Value::String(text, quotes) => Value::String(text, quotes),
             _ => Value::String(
                 right.to_css_string(span, false)?,
                 QuoteKind::None,
